@@ -38,6 +38,11 @@ def run():
         if "polarization" in g and all((not v["multi"]) or v["n"] == 2 for v in g.values()) and g["observers"]["multi"]:
             g2 = {("magnetization" if k == "polarization" else k): v for k, v in g.items()}
             combos.append((cls_, g2))
+    # in_out passed through the functional interface (Tetrahedron, TriangularMesh): same rule, both interfaces get the same in_out
+    for cls_, g in list(combos):
+        if cls_ in ("Tetrahedron", "TriangularMesh") and "polarization" in g and all((not v["multi"]) or v["n"] == 2 for v in g.values()) and g["observers"]["multi"] and g["observers"]["n"] == 2:
+            for io in ("inside", "outside"):
+                combos.append((cls_, g, io))
     rep.phase("model_check")
     d = workdir("traces/c07")
     r = rng("c07")
